@@ -44,7 +44,7 @@ def rule_writers(ctx):
     n_ok = 0
     for p in enumerate_paths(u, ctx.facts):
         pushed = bool(p.called('payload::history::PayloadHistory::push_delta'))
-        d = [labs for v, labs in p.cond_map().items() if v.startswith('var:delta') or 'and_then' in v]
+        d = [labs for v, labs in p.cond_map().items() if v.startswith('var:delta') or 'and_then' in v or re.match(r'^call:PayloadDelta::construct(\([^@]*\))?$', v)]
         changed = any(l == {'Some'} for l in d)
         unchanged = any(l == {'None'} for l in d)
         if pushed:
@@ -55,7 +55,10 @@ def rule_writers(ctx):
     ctx.floor('K1', 'pushing paths in update', n_ok, 1)
     for s in ps:
         d = arg_desc(s, 1)
-        ctx.check('PayloadDelta::construct' in d or ('and_then' in d and any(c.calls('payload::delta::PayloadDelta::construct') for c in ctx.closures(u))), 'prov', 'update:pushed-delta=constructed', 'the pushed delta is the constructed one', 'pushed %s' % d)
+        per_path = [(pp.event_args.get(s.bb) or [None, ''])[1] or '' for pp in enumerate_paths(u, ctx.facts) if any(e.bb == s.bb for e in pp.events)]
+        ctx.check('PayloadDelta::construct' in d or ('and_then' in d and any(c.calls('payload::delta::PayloadDelta::construct') for c in ctx.closures(u)))
+                  or (per_path and all('PayloadDelta::construct' in x for x in per_path)),
+                  'prov', 'update:pushed-delta=constructed', 'the pushed delta is the constructed one', 'pushed %s' % d)
     for s in u.calls('payload::delta::PayloadDelta::construct') + [x for c in ctx.closures(u) for x in c.calls('payload::delta::PayloadDelta::construct')]:
         d = arg_desc(s, 2)
         ctx.check('serial' in d, 'prov', 'update:construct:serial', 'the delta is constructed on top of the current serial', 'construct(.., %s)' % d, loc=s.loc())
